@@ -5,7 +5,7 @@
 From Coq Require Import List NArith ZArith Bool Arith Lia ZifyN ZifyNat ZifyBool.
 Import ListNotations.
 From GM Require Import Base.Topic Base.Msg Model.SubTrie Model.RetTrie Model.Queue Model.Limiter Model.TopicMatch
-  Model.Broker Proofs.TopicP Proofs.SubTrieP Proofs.LimiterP.
+  Model.Broker Proofs.TopicP Proofs.SubTrieP Proofs.LimiterP Proofs.BrokerBasicP.
 Open Scope N_scope.
 
 (* ================================================================== *)
@@ -824,7 +824,9 @@ Definition charge (k : conn) (qos : N) : conn :=
 
 (* the conditions under which readLoop + publishHandler do not end the connection *)
 Definition pub_accepts (k : conn) (qos : N) (retain : bool) (topic : str) (props : list prop) : bool :=
-  negb (has_wild topic) && negb ((k_v k =? 5) && (0 <? qos) && (k_quota k =? 0)) &&
+  negb (has_wild topic) &&
+  negb (is_empty topic && negb ((k_v k =? 5) && match p_alias props with Some _ => true | None => false end)) &&
+  negb ((k_v k =? 5) && (0 <? qos) && (k_quota k =? 0)) &&
   negb (negb (k_retain_avail k) && retain) && alias_ok (k_v k =? 5) k topic props.
 
 Lemma charge_fields k qos :
@@ -848,13 +850,14 @@ Lemma handle_packet_publish c k dup qos retain topic payload pid props s :
      pub_finish c k' v5 qos pid (pub_fwd k' m isdup s1)).
 Proof.
   intros H v5. unfold pub_accepts in H.
-  apply andb_prop in H as [H Ha]. apply andb_prop in H as [H Hr]. apply andb_prop in H as [Hw Hq].
-  apply negb_true_iff in Hw, Hq, Hr.
+  apply andb_prop in H as [H Ha]. apply andb_prop in H as [H Hr]. apply andb_prop in H as [H Hq].
+  apply andb_prop in H as [Hw He].
+  apply negb_true_iff in Hw, He, Hq, Hr.
   rewrite <- (alias_ok_charge _ _ qos) in Ha.
   destruct (pub_alias_ok v5 (charge k qos) topic props (msg_of_publish v5 dup qos retain topic payload pid props) Ha)
     as (k' & m & Hal & _ & _).
   exists k', m. split; [exact Hal|].
-  cbn [handle_packet]. rewrite Hw. fold v5 in Hq |- *. rewrite Hq.
+  cbn [handle_packet]. rewrite Hw. fold v5 in He, Hq |- *. rewrite He, Hq.
   change (if v5 && (0 <? qos) then set_quota (k_quota k - 1) k else k) with (charge k qos).
   rewrite handle_publish_stages.
   destruct (charge_fields k qos) as (_ & Ev & Era & _ & _).
@@ -871,6 +874,7 @@ Lemma handle_packet_publish_rejected c k dup qos retain topic payload pid props 
 Proof.
   unfold pub_accepts. intros H. cbn [handle_packet].
   destruct (has_wild topic); [left; eauto|].
+  match goal with |- context [if ?b then HErrRead s (Some 130) else _] => destruct b end; [left; eauto|].
   destruct ((k_v k =? 5) && (0 <? qos) && (k_quota k =? 0)) eqn:Hq; [left; eauto|]. right.
   change (if (k_v k =? 5) && (0 <? qos) then set_quota (k_quota k - 1) k else k) with (charge k qos).
   rewrite handle_publish_stages. cbv zeta.
@@ -1360,7 +1364,7 @@ Lemma write_publish_spec c k m :
   kstat (fst (write_publish c k m)) = kstat k /\ Forall is_poll_out (snd (write_publish c k m)).
 Proof.
   unfold write_publish.
-  destruct ((k_v k =? 5) && (0 <? k_client_alias_max k)).
+  destruct ((k_v k =? 5) && (0 <? k_client_alias_max k) && (msg_total_bytes true m + 5 <=? k_client_max_packet k)).
   - destruct (am_check (m_topic m) (k_alias_out k)) as [am' [a ex|]]; cbn [fst snd].
     + split; [reflexivity|]. constructor; [exact I|constructor].
     + split; [reflexivity|constructor].
@@ -1516,6 +1520,7 @@ Proof.
   destruct p; cbn [handle_packet]; intros H; try congruence.
   - destruct (has_wild topic); [discriminate|].
     match type of H with (if ?b then _ else _) = _ => destruct b end; [discriminate|].
+    match type of H with (if ?b then _ else _) = _ => destruct b end; [discriminate|].
     rewrite handle_publish_stages in H. cbv zeta in H.
     match type of H with (if ?b then _ else _) = _ => destruct b end; [congruence|].
     match type of H with context [pub_alias ?a ?b ?c ?d ?e] => destruct (pub_alias a b c d e) as [[[k' m]|]|cd] end; try congruence.
@@ -1628,6 +1633,22 @@ Definition step_event_i (s : st) (e : event) : (st * list out) * flog :=
           end
       | None => (step_event s e, [])
       end
+  | ESendSz c p n =>
+      (* the same with the packet's wire size: a packet that is too big is not handled (no deliver) *)
+      match nget c (b_conns s) with
+      | Some k =>
+          match k_phase k with
+          | PhConnected =>
+              let '(r, log) := if too_big k n s then (handle_packet_sz c k p n s, []) else handle_packet_i c k p s in
+              (match r with
+               | HOk s' o => (s', o)
+               | HErr s' o code => let '(s'', o') := fail_conn c code false s' in (s'', o ++ o')
+               | HErrRead s' code => fail_conn c code true s'
+               end, map (fun x => (c, fst x, snd x)) log)
+          | _ => (step_event s e, [])
+          end
+      | None => (step_event s e, [])
+      end
   | _ => (step_event s e, [])
   end.
 
@@ -1645,10 +1666,15 @@ Fixpoint run_i (s : st) (es : list event) : (st * list (list out)) * flog :=
 
 Lemma step_event_i_erase s e : fst (step_event_i s e) = step_event s e.
 Proof.
-  destruct e; try reflexivity. cbn [step_event_i step_event].
-  destruct (nget c (b_conns s)) as [k|]; [|reflexivity].
-  destruct (k_phase k); try reflexivity.
-  rewrite <- (handle_packet_i_fst c k p s). destruct (handle_packet_i c k p s) as [r log]. reflexivity.
+  destruct e; try reflexivity; cbn [step_event_i step_event].
+  - destruct (nget c (b_conns s)) as [k|]; [|reflexivity].
+    destruct (k_phase k); try reflexivity.
+    rewrite <- (handle_packet_i_fst c k p s). destruct (handle_packet_i c k p s) as [r log]. reflexivity.
+  - destruct (nget c (b_conns s)) as [k|]; [|reflexivity].
+    destruct (k_phase k); try reflexivity.
+    destruct (too_big k n s) eqn:Hb; [reflexivity|].
+    rewrite (handle_packet_sz_small c k p n s Hb), <- (handle_packet_i_fst c k p s).
+    destruct (handle_packet_i c k p s) as [r log]. reflexivity.
 Qed.
 
 Lemma step_i_erase s e : fst (step_i s e) = step s e.
@@ -2079,7 +2105,7 @@ Qed.
 Definition ev_wf (k0 : conn) (e : event) : Prop :=
   match e with
   | ESend _ (KPublish _ _ retain topic _ _ props) =>
-      has_wild topic = false /\ (k_retain_avail k0 = true \/ retain = false) /\
+      has_wild topic = false /\ is_empty topic = false /\ (k_retain_avail k0 = true \/ retain = false) /\
       (if k_v k0 =? 5 then p_alias props else None) = None
   | _ => True
   end.
@@ -2098,11 +2124,11 @@ Proof.
     by (unfold kstat0 in Hs; repeat split; congruence).
   destruct Hf as (Hcid & Hv & Hp & Hra).
   assert (Hstep : exists p s' o, e = ESend c p /\ handle_packet c k p s = HOk s' o /\ conn_ge c k0 (N.of_nat (length r)) s').
-  { destruct e as [| |c' p| | | | | | |]; cbn [qos2_traffic] in Hte; try contradiction.
+  { destruct e as [| |c' p| | | | | | | |]; cbn [qos2_traffic] in Hte; try contradiction.
     destruct p; try contradiction.
-    - destruct Hte as [-> ->]. cbn [ev_wf] in Hwe. destruct Hwe as (Hw & Hr & Ha).
+    - destruct Hte as [-> ->]. cbn [ev_wf] in Hwe. destruct Hwe as (Hw & He & Hr & Ha).
       assert (Hacc : pub_accepts k 2 retain topic props = true).
-      { unfold pub_accepts. rewrite Hw, Hra, Hv. cbn [negb andb].
+      { unfold pub_accepts. rewrite Hw, He, Hra, Hv. cbn [negb andb].
         assert (Eq : (k_quota k =? 0) = false) by (apply N.eqb_neq; lia). rewrite Eq, andb_false_r. cbn [negb andb].
         assert (Er : negb (k_retain_avail k0) && retain = false) by (destruct Hr as [->| ->]; [reflexivity|apply andb_false_r]).
         rewrite Er. cbn [negb andb]. unfold alias_ok. now rewrite Ha. }
@@ -2194,7 +2220,7 @@ Lemma run_okb_ok c cid : forall es s, run_okb c cid s es = true -> run_ok c cid 
 Proof.
   induction es as [|e r IH]; intros s H; [exact I|].
   cbn [run_okb] in H. apply andb_prop in H as [H1 H2]. cbn [run_ok]. split; [|now apply IH].
-  destruct e as [| |c' p| | | | | | |]; try discriminate.
+  destruct e as [| |c' p| | | | | | | |]; try discriminate.
   apply andb_prop in H1 as [Hc H1]. apply N.eqb_eq in Hc. subst c'.
   destruct (nget c (b_conns s)) as [k|]; [|discriminate].
   destruct (k_phase k) eqn:Hp; try discriminate.
